@@ -35,7 +35,7 @@ import vlib
 from vlib import cz, cbool, clist
 
 HEADER = ("From Coq Require Import List ZArith Bool QArith Qcanon Floats.\n"
-          "Import ListNotations.\nFrom QV Require Import Model.C06.\n"
+          "Import ListNotations.\nFrom QV Require Import Model.C06 Model.C06_poly.\n"
           "Open Scope Z_scope.\n")
 
 def tolerances():
@@ -154,6 +154,19 @@ def model_expr(case, exact):
     fn = ("observe_copy" if case.get("copy") else "observe") + sfx
     return "%s (%s %s %s %s %s %s)" % (wrap, fn, N, cz(case["order"]),
                                        clist(case["vals"], fcx), g, ts)
+
+
+def spec_expr(case):
+    """exact case through the specification spec_eval (rational instance)"""
+    ft = lambda x: cq(Fraction(x))
+    fcx = lambda z: cqc((Fraction(z[0]), Fraction(z[1])))
+    g = clist(case["grid"], ft)
+    ts = clist(case["ts"], ft)
+    if case["kind"] == "poly":
+        poly = clist(case["poly"], lambda row: clist(row, fcx))
+        return "map rqout (spec_observe_poly NQ %s %s %s)" % (poly, g, ts)
+    return "map rqout (spec_observe NQ %s %s %s %s)" % (
+        cz(case["order"]), clist(case["vals"], fcx), g, ts)
 
 
 def canon_model(v, exact):
@@ -333,7 +346,7 @@ def gen_poly_case(rng, quick):
     for _ in range(n - 1):
         ks.append(ks[-1] + (step if uniform else (1 << rng.randint(0, 4))))
     g = [Fraction(k) * Fraction(2) ** e for k in ks]
-    order = rng.randint(1, 3)
+    order = rng.randint(1, 5)
     poly = [[(Fraction(rng.randint(-6, 6)), Fraction(rng.randint(-6, 6))) for _ in g]
             for _ in range(order + 1)]
     ts = list(g)
@@ -983,6 +996,171 @@ def run_parse_corr(ctx, rng, n):
     return {"cases": len(cases), "mismatches": mism, "literal_pattern_class": classes}
 
 
+# ------------------------- composite coefficients with argument histories
+HEADER_ARGS = ("From Coq Require Import List ZArith Bool.\nImport ListNotations.\n"
+               "From QV Require Import Model.C06 Model.C06_args.\nOpen Scope Z_scope.\n")
+TNAMES = ["a", "b", "w", "zz", "q"]
+
+
+def _lin_src(p, q, wts, getter):
+    re_ = " + ".join(["%d*t" % p] + ["%d*%s" % (wr, getter(k)) for k, wr, wi in wts])
+    im_ = " + ".join(["%d*t" % q] + ["%d*%s" % (wi, getter(k)) for k, wr, wi in wts])
+    return re_, im_
+
+
+def gen_tree_leaf(rng, tab, ftab):
+    """returns (python builder, coq term); appends the leaf's table entry"""
+    import qutip
+    from qutip.core.cy.coefficient import (FunctionCoefficient, InterCoefficient,
+                                           ConstantCoefficient)
+    kind = rng.choice(["py", "py", "kw", "dict", "py_kw", "str", "str", "const", "inter"])
+    args0 = [(k, rng.randint(-4, 4)) for k in TNAMES if rng.random() < 0.6]
+    p, q = rng.randint(-3, 3), rng.randint(-3, 3)
+    if kind in ("const", "inter"):
+        if kind == "const":
+            vals = [(rng.randint(-5, 5), rng.randint(-5, 5))]
+            build = lambda: ConstantCoefficient(complex(*vals[0]))
+        else:
+            vals = [(rng.randint(-5, 5), rng.randint(-5, 5)) for _ in range(rng.randint(2, 5))]
+            build = lambda: InterCoefficient(np.array([complex(*z) for z in vals]),
+                                             np.arange(len(vals), dtype=float), 0, None)
+        ftab.append(vals)
+        return build, "CFixed %d%%nat" % (len(ftab) - 1), kind
+    if kind == "str":
+        names = [k for k, _ in args0] or ["a"]
+        if not args0:
+            args0 = [("a", rng.randint(-4, 4))]
+        used = [k for k in names if rng.random() < 0.8] or names[:1]
+        wts = [(k, rng.randint(-3, 3), rng.randint(-3, 3)) for k in used]
+        re_, im_ = _lin_src(p, q, wts, lambda k: k)
+        code = "(%s) + 1j*(%s)" % (re_, im_)
+        tab.append((p, q, wts))
+        d0 = dict(args0)
+        return (lambda: qutip.coefficient(code, args=d0),
+                "CStr %d%%nat %s" % (len(tab) - 1, cdict(args0)), kind)
+    declared = [k for k in TNAMES if rng.random() < 0.5]
+    if kind in ("kw", "dict"):
+        visible = list(TNAMES)
+    elif kind == "py_kw":
+        visible = list(TNAMES)
+    else:
+        visible = list(declared)
+    wts = [(k, rng.randint(-3, 3), rng.randint(-3, 3)) for k in visible if rng.random() < 0.8]
+    if kind == "py":
+        sig = "t" + "".join(", %s=0" % k for k in declared)
+        getter = lambda k: k
+        params, has_kw = ["t"] + declared, False
+    elif kind == "py_kw":
+        sig = "t" + "".join(", %s=0" % k for k in declared) + ", **kw"
+        getter = lambda k: (k if k in declared else "kw.get('%s', 0)" % k)
+        params, has_kw = ["t"] + declared + ["kw"], True
+    elif kind == "kw":
+        sig = "t, **kw"
+        getter = lambda k: "kw.get('%s', 0)" % k
+        params, has_kw = ["t", "kw"], True
+    else:
+        sig = "t, args"
+        getter = lambda k: "args.get('%s', 0)" % k
+        params, has_kw = ["t", "args"], False
+    re_, im_ = _lin_src(p, q, wts, getter)
+    ns = {}
+    exec("def f(%s):\n    return complex(%s, %s)\n" % (sig, re_, im_), ns)
+    f = ns["f"]
+    tab.append((p, q, wts))
+    d0 = dict(args0)
+    direct = rng.random() < 0.5
+    build = (lambda: FunctionCoefficient(f, d0)) if direct else (lambda: qutip.coefficient(f, args=d0))
+    sigc = "{| f_params := %s; f_has_kw := %s |}" % (
+        clist([KEYID.get(x, 9) for x in params], lambda k: "%d%%nat" % k), cbool(has_kw))
+    return build, "CFunc %d%%nat (fc_init (V:=Z) %s SAuto %s)" % (len(tab) - 1, sigc, cdict(args0)), kind
+
+
+def gen_tree(rng, depth, tab, ftab, kinds):
+    if depth == 0 or rng.random() < 0.3:
+        b, c, kind = gen_tree_leaf(rng, tab, ftab)
+        kinds[kind] = kinds.get(kind, 0) + 1
+        return b, c
+    op = rng.choice(["sum", "sum", "mul", "conj", "norm"])
+    kinds[op] = kinds.get(op, 0) + 1
+    b1, c1 = gen_tree(rng, depth - 1, tab, ftab, kinds)
+    if op in ("sum", "mul"):
+        b2, c2 = gen_tree(rng, depth - 1, tab, ftab, kinds)
+        if op == "sum":
+            return (lambda: b1() + b2()), "CSum (%s) (%s)" % (c1, c2)
+        return (lambda: b1() * b2()), "CMul (%s) (%s)" % (c1, c2)
+    if op == "conj":
+        return (lambda: b1().conj()), "CConj (%s)" % c1
+    return (lambda: b1()._cdc()), "CNorm (%s)" % c1
+
+
+def run_tree_corr(ctx, rng, n):
+    import warnings
+    cases, exprs, impl = [], [], []
+    kinds = {}
+    for _ in range(n):
+        tab, ftab = [], []
+        build, cterm = gen_tree(rng, rng.randint(0, 3), tab, ftab, kinds)
+        hist = []
+        for _h in range(rng.randint(0, 3)):
+            hist.append(([(k, rng.randint(-5, 5)) for k in TNAMES if rng.random() < 0.3],
+                         [(k, rng.randint(-5, 5)) for k in TNAMES if rng.random() < 0.3]))
+        fa = [(k, rng.randint(-5, 5)) for k in TNAMES if rng.random() < 0.25]
+        fkw = [(k, rng.randint(-5, 5)) for k in TNAMES if rng.random() < 0.25]
+        t = rng.randint(-2, 5)
+        desc = {"tree": cterm, "table": tab, "fixed": ftab, "history": hist,
+                "call": [fa, fkw], "t": t}
+        try:
+            with warnings.catch_warnings():
+                warnings.simplefilter("ignore")
+                co = build()
+                for a, kw in hist:
+                    co = co.replace_arguments(dict(a) if (a or rng.random() < 0.5) else None,
+                                              **dict(kw))
+                v = complex(co(float(t), dict(fa), **dict(fkw))) if (fa or fkw or rng.random() < 0.3) \
+                    else complex(co(float(t)))
+        except Exception as e:
+            ctx.violation("corr:coefficient.composite", "raises-" + type(e).__name__,
+                          "composite coefficient with an argument history raised %s: %s" % (
+                              type(e).__name__, str(e)[:200]),
+                          {"kind": "tree", "case": desc})
+            continue
+        ctab = clist(tab, lambda s_: "(%s, %s, %s)" % (
+            cz(s_[0]), cz(s_[1]), clist(s_[2], lambda w: "(%d%%nat, %s, %s)" % (
+                KEYID[w[0]], cz(w[1]), cz(w[2])))))
+        cft = clist(ftab, lambda vs: clist(vs, lambda z: "(%s, %s)" % (cz(z[0]), cz(z[1]))))
+        chist = clist(hist, lambda h: "(%s, %s)" % (cdict(h[0]), cdict(h[1])))
+        exprs.append("ccall gadd gmul gconj gnorm (lin_leaf %s) (lin_leaf %s) (fixed_leaf %s) "
+                     "(apply_hist (%s) %s) %s %s %s" % (
+                         ctab, ctab, cft, cterm, chist if hist else "(@nil (dict Z * dict Z))",
+                         cz(t), cdict(fa) if fa else "(@nil (nat * Z))",
+                         cdict(fkw) if fkw else "(@nil (nat * Z))"))
+        cases.append(desc)
+        impl.append(v)
+        ctx.count_case(("tree", json.dumps(desc, sort_keys=True)), nontrivial=bool(hist or fa or fkw))
+    try:
+        vals = vlib.coq_eval_values("cases_C06t", HEADER_ARGS, exprs, chunk=100)
+    except (RuntimeError, ValueError) as e:
+        ctx.violation("corr:C06:model-eval", "coqc-tree", "composite model evaluation failed",
+                      {"log": str(e)[-3000:]}, found_input=False)
+        return {"cases": len(cases)}
+    mism = skipped = 0
+    for desc, v, mv in zip(cases, impl, vals):
+        x, y = vlib.parse_coq_value(mv)
+        if max(abs(x), abs(y)) >= 2 ** 50:
+            skipped += 1
+            continue
+        ctx.cov["traces_validated_against_impl"] += 1
+        if (v.real, v.imag) != (float(x), float(y)):
+            mism += 1
+            if mism <= 3:
+                ctx.violation("corr:coefficient.composite", "value-differs-from-last-value-given",
+                              "composite coefficient after %d replace_arguments and call-time "
+                              "arguments %r: implementation %r, model (last value given per "
+                              "accepted name) %r" % (len(desc["history"]), desc["call"], v, (x, y)),
+                              {"kind": "tree", "case": desc})
+    return {"cases": len(cases), "mismatches": mism, "skipped_large": skipped, "nodes": kinds}
+
+
 # ------------------------------------------------------------ spline orders
 def run_spline_validation(ctx, rng, n):
     """orders 2..5.  The spline fit is scipy's (oracle).  Checked here:
@@ -1002,10 +1180,14 @@ def run_spline_validation(ctx, rng, n):
             continue
         order = rng.randint(2, 5)
         vals = np.array([complex(rng.uniform(-2, 2), rng.uniform(-2, 2)) for _ in g])
+        bc = None
+        if order == 3 and rng.random() < 0.6:
+            # boundary conditions are handed to scipy unchanged
+            bc = rng.choice(["natural", "clamped", "not-a-knot"])
         try:
             with np.errstate(all="ignore"):
-                co = InterCoefficient(vals, np.array(g), order, None)
-                sp = make_interp_spline(np.array(g), vals, k=order, bc_type=None)
+                co = InterCoefficient(vals, np.array(g), order, bc)
+                sp = make_interp_spline(np.array(g), vals, k=order, bc_type=bc)
         except Exception:
             continue
         cnt += 1
@@ -1021,7 +1203,25 @@ def run_spline_validation(ctx, rng, n):
             checks += [(a + (b - a) / 2, complex(sp(a + (b - a) / 2)), 1e-7,
                         "the spline's value at the midpoint of cell %d" % k)
                        for k, (a, b) in enumerate(zip(g[:-1], g[1:]))]
+        if tame:
+            # the pieces returned by the oracle join at the knots (hypothesis
+            # `joins` of C06_continuity_reduces_to_joining_pieces), numerically
+            ktl, kpoly = co.__reduce__()[1][:2]
+            for k in range(len(ktl) - 1):
+                left = complex(np.polyval(kpoly[:, k], ktl[k + 1] - ktl[k]))
+                checks.append((None, (left, complex(kpoly[-1, k + 1])), 1e-7,
+                               "joining pieces at knot %d" % (k + 1)))
         for t, want, tol, what in checks:
+            if t is None:
+                if not abs(want[0] - want[1]) <= tol * scale:
+                    ctx.violation(SITE_INTER, "spline-pieces-do-not-join",
+                                  "order %d coefficient (bc=%r, grid kind %s): %s: left piece "
+                                  "gives %r, constant term of the next piece %r" % (
+                                      order, bc, kind, what, want[0], want[1]),
+                                  {"kind": "spline", "grid": [x.hex() for x in g], "order": order,
+                                   "bc": bc})
+                    break
+                continue
             try:
                 v = complex(co(t))
             except IndexError:
@@ -1460,8 +1660,9 @@ def run(ctx):
                                "failed_theorems": failed})
                 return
 
-    vlib.standard_proof_step(ctx, ["Props/C06.vo", "Props/C06_str.vo"],
-                             ["Props/C06.v", "Props/C06_str.v"], search)
+    vlib.standard_proof_step(
+        ctx, ["Props/C06.vo", "Props/C06_str.vo", "Props/C06_poly.vo", "Props/C06_args.vo"],
+        ["Props/C06.v", "Props/C06_str.v", "Props/C06_poly.v", "Props/C06_args.v"], search)
     ctx.log("proof step done")
 
     # -------------------------------------------------- InterCoefficient tie
@@ -1501,6 +1702,12 @@ def run(ctx):
         if exact:
             extra_idx.append(i)
             exprs.append(model_expr(to_float_case(case), False))
+    # exact cases also against the SPECIFICATION (Model/C06_poly.v: powers of
+    # t - t_k, cell by linear scan), which Props/C06_poly.v proves equal to
+    # the code model
+    nspec = len(exprs)
+    for i in extra_idx:
+        exprs.append(spec_expr(streams[i][0]))
     exprs.append("(@init_shares_inputs, 0)")
     try:
         vals = vlib.coq_eval_values("cases_C06", HEADER, exprs, chunk=60)
@@ -1602,6 +1809,28 @@ def run(ctx):
                                   "binary64 instance of the model and implementation disagree "
                                   "on an exactly representable case",
                                   {"kind": "inter", "case": jsonable(case), "index_path": nz})
+        spec_mism = 0
+        for j, i in enumerate(extra_idx):
+            case, exact, (nz, res, extra) = streams[i]
+            sres = canon_model((False, vlib.parse_coq_value(vals[nspec + j])), True)[1]
+            ires = [r if r[0] != "Val" else ("Val", Fraction(r[1]), Fraction(r[2])) for r in res]
+            ctx.count_case(("spec", json.dumps(jsonable(case), sort_keys=True)),
+                           nontrivial=len(case["grid"]) >= 3)
+            ctx.cov["traces_validated_against_impl"] += 1
+            if not same_results(sres, ires):
+                spec_mism += 1
+                if spec_mism <= 3:
+                    k = next((q for q, (x, y) in enumerate(zip(sres, ires))
+                              if x[0] != y[0] or (x[0] == "Val" and (x[1] != y[1] or x[2] != y[2]))),
+                             0)
+                    ctx.violation("corr:InterCoefficient", "differs-from-polynomial-specification",
+                                  "InterCoefficient (%s, order %d) differs from the piecewise "
+                                  "polynomial it stands for at t=%r: impl %r, specification %r" % (
+                                      case["kind"], case["order"], float(case["ts"][k]),
+                                      ires[k], sres[k]),
+                                  {"kind": "inter", "case": jsonable(case), "index_path": nz})
+        dist["specification_cases"] = len(extra_idx)
+        dist["specification_mismatches"] = spec_mism
     dist["repaired_defect_signature_hits"] = known_hits
     dist["model_mismatches"] = mism
 
@@ -1662,6 +1891,9 @@ def run(ctx):
             # applied to the arguments a user would expect
             pass
     ctx.log("FunctionCoefficient correspondence done")
+    tdist = run_tree_corr(ctx, rng, 150 if ctx.quick else 2000)
+    ctx.log("composite / argument-history correspondence done: %s" % tdist)
+    fdist["composite_histories"] = tdist
     run_func_direct_oracle(ctx, rng, 100 if ctx.quick else 1000)
     ctx.log("function oracle done")
 
